@@ -30,11 +30,10 @@ RANDOMNESS = ('random.', 'uuid.', 'secrets.', 'os.urandom', 'os.getpid', 'tempfi
 
 # listings of pydoctor's own installation (not of the documented input), with the reason
 OWN_RESOURCE_LISTINGS: Dict[str, str] = {
-    'pydoctor.extensions._importlib_resources_contents': 'lists pydoctor/extensions of the installation, not the input; consumers look names up',
+    'pydoctor.extensions._importlib_resources_contents': 'lists pydoctor/extensions of the INSTALLATION (not an input): fixes the load order of the bundled extensions; their mixins, visitors and post-processors are assumed to commute (outputs compared for both orders on a project using all of them: identical) - an assumption, not decided',
     'pydoctor.extensions._importlib_resources_is_resource': 'any(...) over the listing: order-insensitive',
     'pydoctor.themes.get_themes': 'lists the bundled themes for the --theme choices (help text), not written to the output',
     'pydoctor.epydoc.markup.get_supported_docformats': 'lists the bundled parsers for the --docformat choices, not written to the output',
-    'pydoctor.templatewriter.Template.fromdir': 'template directory entries go into a name-keyed store (TemplateLookup); lookups are by name',
 }
 
 
@@ -294,6 +293,25 @@ def _classify_call_arg(repo: Repo, sf: SetFlow, f: Func, e: ast.AST, call: ast.C
     return 'stored', f'argument of {nm}()'
 
 
+def _injective_key(kf: ast.expr) -> bool:
+    """Is this sort key one-to-one on directory entries (so that sorted() imposes a total order on a listing)?"""
+    if not isinstance(kf, ast.Lambda) or len(kf.args.args) != 1:
+        return isinstance(kf, (ast.Name, ast.Attribute)) and norm(kf) in ('str', 'os.fspath', 'os.fsdecode')
+    prm = kf.args.args[0].arg
+
+    def one_to_one(e: ast.expr) -> bool:
+        if isinstance(e, ast.Name) and e.id == prm:
+            return True
+        if isinstance(e, ast.Attribute) and isinstance(e.value, ast.Name) and e.value.id == prm and e.attr in ('name', 'path'):
+            return True
+        if isinstance(e, ast.Call) and norm(e.func) in ('str', 'os.fspath', 'os.fsdecode') and len(e.args) == 1:
+            return one_to_one(e.args[0])
+        if isinstance(e, ast.Tuple):
+            return any(one_to_one(x) for x in e.elts)
+        return False
+    return one_to_one(kf.body)
+
+
 def run(repo: Repo, chk: Check, thorough: bool = False) -> None:
     chk.explanation = ('nondeterminism taint on the syntax: every set-typed expression (literals, comprehensions, set()/frozenset(), '
                        'annotated Set names/attributes/parameters, functions and properties returning a set) and every directory listing is '
@@ -364,7 +382,11 @@ def run(repo: Repo, chk: Check, thorough: bool = False) -> None:
             key = f'{f.qn} :: {norm(c)[:50]}'
             par = getattr(c, '_parent', None)
             if isinstance(par, ast.Call) and call_name(par) == 'sorted' and isinstance(par.func, ast.Name):
-                chk.ob('R18.2', key, True, 'wrapped in sorted(...)', repo.loc(f.mod, c))
+                kf = next((k.value for k in par.keywords if k.arg == 'key'), None)
+                total = kf is None or _injective_key(kf)
+                chk.ob('R18.2', key, total, 'wrapped in sorted(...)' + ('' if kf is None else f' with the one-to-one key {norm(kf)[:40]}') if total else
+                       f'sorted with key={norm(kf)[:60]}: entries that the key does not tell apart (names differing in case, ...) keep the order '
+                       'the file system listed them in, which differs between machines', repo.loc(f.mod, c))
             elif f.qn in OWN_RESOURCE_LISTINGS:
                 chk.ob('R18.2', key, True, f'own-resource listing: {OWN_RESOURCE_LISTINGS[f.qn]}', repo.loc(f.mod, c), kind='reasoned-exception')
             else:
